@@ -40,6 +40,14 @@ function mkWorld (opts = {}) {
     if (t === 'bigint') return v + 'n'
     if (t === 'undefined') return 'undefined'
     if (t === 'number') return 'n:' + (Object.is(v, -0) ? '-0' : String(v))
+    if (t === 'string' && v.length > 4000) {
+      // programs that double a string in a loop reach hundreds of MB within the execution timeout: log a digest
+      // (length, both ends, 64 sampled code units), enough to tell two such values apart
+      let h = 0
+      const step = Math.max(1, Math.floor(v.length / 64))
+      for (let i = 0; i < v.length; i += step) h = (Math.imul(h, 31) + v.charCodeAt(i)) | 0
+      return 's:long:' + v.length + ':' + (h >>> 0).toString(16) + ':' + JSON.stringify(v.slice(0, 120)) + '…' + JSON.stringify(v.slice(-120))
+    }
     return t[0] + ':' + JSON.stringify(v)
   }
 
